@@ -1,0 +1,40 @@
+//go:build verif
+// +build verif
+
+package lorawan
+
+// Verification hooks (build tag "verif"): VerifHook, when set, is called at
+// the linearization points of the MAC-command registry. The hook observes the
+// lock state itself (TryLock / TryRLock probes) so that a missing or
+// downgraded lock changes what is recorded. Without the tag verifHook is an
+// empty function.
+
+// VerifHook is called with the name of the hook point, the direction and CID
+// concerned, whether the registry lock was observed to be held in the mode the
+// access needs, and the size read or written.
+var VerifHook func(point string, uplink bool, cid CID, held bool, size int)
+
+func verifHook(point string, uplink bool, cid CID, size int) {
+	h := VerifHook
+	if h == nil {
+		return
+	}
+	held := true
+	switch point {
+	case "read":
+		// a reader (or writer) must hold the lock: if the write lock can be
+		// taken, nobody holds it
+		if macPayloadMutex.TryLock() {
+			macPayloadMutex.Unlock()
+			held = false
+		}
+	case "write":
+		// a writer must hold the lock exclusively: if a read lock can be
+		// taken, no writer holds it
+		if macPayloadMutex.TryRLock() {
+			macPayloadMutex.RUnlock()
+			held = false
+		}
+	}
+	h(point, uplink, cid, held, size)
+}
